@@ -1,0 +1,25 @@
+//go:build verif
+
+// Contracts for package server, checked by /verif (govc). This file is
+// comment-only: it adds no code under any build tag.
+
+package server
+
+// The permissions applied are exactly the rules granted under the secrets capability (or, if that yields none,
+// under its legacy https:// name) in the tailnet's answer for the request's source address.
+//@ pred permsFrom(id db.Caller, cm tailcfg.PeerCapMap) {
+//@      capOK(ref(cm), str(ACLCap)) &&
+//@      (capRulesLen(ref(cm), str(ACLCap)) != 0 ==> (ref(id.Permissions) == capRulesRef(ref(cm), str(ACLCap)) && len(id.Permissions) == capRulesLen(ref(cm), str(ACLCap)))) &&
+//@      (capRulesLen(ref(cm), str(ACLCap)) == 0 ==> (capOK(ref(cm), str(aclCapHTTP)) && ref(id.Permissions) == capRulesRef(ref(cm), str(aclCapHTTP)) && len(id.Permissions) == capRulesLen(ref(cm), str(aclCapHTTP)))) }
+
+//@ func (*Server).getIdentity(s, r) (id, err)
+//@   requires s != nil && r != nil && s.whois != nil
+//@   ensures [C08 identity.refusals] (err != nil) ==> (len(id.Permissions) == 0 && id.Principal.Hostname == "" && id.Principal.User == "" && len(id.Principal.Tags) == 0)
+//@   ensures [C08 identity.noeffect] auditLog == old(auditLog) && disk == old(disk) && fnCalls == old(fnCalls)
+//@   ensures [C08 identity.whois-error] (whoisCalls != old(whoisCalls) && lastWhoErr != nil) ==> err != nil
+//@   ensures [C08 identity.one-lookup] err == nil ==> (whoisCalls == old(whoisCalls) + 1 && lastWhoErr == nil)
+//@   ensures [C08 identity.anonymous] (err == nil) ==> (len(lastWho.Node.Tags) > 0 || lastWho.UserProfile.LoginName != "")
+//@   ensures [C06,C08 identity.principal] err == nil ==> (id.Principal.Hostname == lastWho.Node.Name &&
+//@        ((len(lastWho.Node.Tags) > 0 && id.Principal.Tags == lastWho.Node.Tags && id.Principal.User == "") ||
+//@         (len(lastWho.Node.Tags) == 0 && id.Principal.User == lastWho.UserProfile.LoginName && len(id.Principal.Tags) == 0)))
+//@   ensures [C01,C08 identity.permissions] err == nil ==> permsFrom(id, lastWho.CapMap)
